@@ -7,12 +7,13 @@ history correspondence (Tie B): the same op lines run on the Lean driver and on 
 from vlib import histcheck
 
 MODULE = "TriompheModel.Props.C04"
+EXTRA = []
 TAGS = ['C04']
 WEIGHTS = {'clone': 22, 'cloneArc': 12, 'conv': 20, 'cb': 16, 'drop': 12}
 
 
 def run(ctx):
-    histcheck.run(ctx, MODULE, WEIGHTS, TAGS)
+    histcheck.run(ctx, MODULE, WEIGHTS, TAGS, lean_extra=EXTRA)
 
 
 def replay(ctx, path):
